@@ -55,3 +55,46 @@ func verifH_C15_filter() {
 	verifSharedEnd()
 	verifReach("end")
 }
+
+//verif:harness id=C15 tier=quick,thorough witness=end bounds="body decoders on a shared document: request body as application/json, application/x-www-form-urlencoded or multipart/form-data (concrete texts) against an object schema with properties, allOf or additionalProperties-with-properties; footprint monitor: decoding and validating writes nothing reachable from the shared route"
+func verifH_C15_body_decoders() {
+	str := &openapi3.SchemaRef{Value: &openapi3.Schema{Type: &openapi3.Types{"string"}}}
+	integer := &openapi3.SchemaRef{Value: &openapi3.Schema{Type: &openapi3.Types{"integer"}}}
+	obj := &openapi3.Schema{Type: &openapi3.Types{"object"}, Properties: openapi3.Schemas{"a": str, "n": integer}}
+	shape := verifChoose("shape", 3)
+	switch shape {
+	case 1:
+		obj.AdditionalProperties.Schema = &openapi3.SchemaRef{Value: &openapi3.Schema{Type: &openapi3.Types{"object"}, Properties: openapi3.Schemas{"x": str}}}
+	case 2:
+		obj = &openapi3.Schema{AllOf: openapi3.SchemaRefs{{Value: obj}, {Value: &openapi3.Schema{Type: &openapi3.Types{"object"}, Properties: openapi3.Schemas{"b": str}}}}}
+	}
+	ct, body := "", ""
+	switch verifChoose("ct", 3) {
+	case 0:
+		ct, body = "application/json", `{"a":"v","n":3}`
+	case 1:
+		ct, body = "application/x-www-form-urlencoded", "a=v&n=3"
+	case 2:
+		ct = "multipart/form-data; boundary=XX"
+		body = "--XX\r\nContent-Disposition: form-data; name=\"a\"\r\n\r\nv\r\n--XX\r\nContent-Disposition: form-data; name=\"n\"\r\nContent-Type: application/json\r\n\r\n3\r\n--XX--\r\n"
+	}
+	mtKey := ct
+	if i := strings.IndexByte(ct, ';'); i >= 0 {
+		mtKey = ct[:i]
+	}
+	d := "d"
+	resps := openapi3.NewResponsesWithCapacity(1)
+	resps.Set("200", &openapi3.ResponseRef{Value: &openapi3.Response{Description: &d}})
+	op := &openapi3.Operation{Responses: resps, RequestBody: &openapi3.RequestBodyRef{Value: &openapi3.RequestBody{Required: true, Content: openapi3.Content{mtKey: &openapi3.MediaType{Schema: &openapi3.SchemaRef{Value: obj}}}}}}
+	route := &routers.Route{Spec: &openapi3.T{}, PathItem: &openapi3.PathItem{Post: op}, Operation: op, Method: "POST"}
+	opts := &Options{MultiError: verifNondetBool("multi")}
+	req := &http.Request{Method: "POST", Header: http.Header{"Content-Type": []string{ct}}, URL: &url.URL{Path: "/"}, Body: io.NopCloser(strings.NewReader(body))}
+	verifSharedBegin(route, opts)
+	err := ValidateRequest(context.Background(), &RequestValidationInput{Request: req, Route: route, Options: opts})
+	verifSharedEnd()
+	if shape != 2 || mtKey == "application/json" {
+		// (the form decoders document that they need an object schema at the top level: allOf is refused)
+		verifAssert(err == nil, "C15 body decoders: the conforming body is accepted")
+	}
+	verifReach("end")
+}
